@@ -514,10 +514,91 @@ let run_migrate toks =
          (string_of_n r.Migration.rep_ambiguous) (fnv_string (Stdlib.Buffer.contents b)))
   | _ -> failwith "migrate: missing source"
 
+
+(* ---------- conc / hist: the concurrency model (Sched) and the history checker (Lin) ---------- *)
+let sched_val (t : string) : Sched.coq_val =
+  let body = Stdlib.String.sub t 1 (Stdlib.String.length t - 1) in
+  match t.[0] with
+  | 'b' -> Sched.VB (n_of_string body)
+  | 'j' -> Sched.VJ (Stdlib.List.map n_of_string (split_on '_' body))
+  | 'c' -> Sched.VC (coqz_of_z (Z.of_string body))
+  | _ -> failwith ("bad value token " ^ t)
+
+let sched_val_str (v : Sched.coq_val) : string = match v with
+  | Sched.VB n -> "b" ^ string_of_n n
+  | Sched.VJ l -> "j" ^ Stdlib.String.concat "_" (Stdlib.List.map string_of_n l)
+  | Sched.VC z -> "c" ^ Z.to_string (z_of_coqz z)
+
+let sched_ts t = if t = "-" then None else Some (n_of_string t)
+
+let sched_op (t : string) : Sched.op =
+  match Stdlib.String.split_on_char '.' t with
+  | ["g"; k] -> Sched.OGet (n_of_string k)
+  | ["u"; k; v; ts] -> Sched.OUpsert (n_of_string k, sched_val v, sched_ts ts)
+  | ["d"; k; ts] -> Sched.ODelete (n_of_string k, sched_ts ts)
+  | ["c"; k; e; n; ts] -> Sched.OCas (n_of_string k, sched_val e, sched_val n, sched_ts ts)
+  | ["n"; k; d; ts] -> Sched.OIncr (n_of_string k, coqz_of_z (Z.of_string d), sched_ts ts)
+  | ["a"; k; v] -> Sched.OIfAbsent (n_of_string k, sched_val v)
+  | ["p"; k; pj; ts] -> Sched.OPatch (n_of_string k, n_of_string pj, sched_ts ts)
+  | _ -> failwith ("bad op token " ^ t)
+
+let sched_resp_str (r : Sched.resp) : string = match r with
+  | Sched.RVal v -> "v:" ^ sched_val_str v
+  | Sched.RNotFound -> "nf" | Sched.ROlder -> "older"
+  | Sched.RBool true -> "true" | Sched.RBool false -> "false"
+  | Sched.RUnit -> "ok" | Sched.RInt z -> "i:" ^ Z.to_string (z_of_coqz z)
+  | Sched.RInvalid -> "invalid" | Sched.RPatchErr -> "perr"
+
+let sched_resp (t : string) : Sched.resp =
+  if t = "nf" then Sched.RNotFound else if t = "older" then Sched.ROlder
+  else if t = "true" then Sched.RBool true else if t = "false" then Sched.RBool false
+  else if t = "ok" then Sched.RUnit else if t = "invalid" then Sched.RInvalid
+  else if t = "perr" then Sched.RPatchErr
+  else if Stdlib.String.length t > 2 && Stdlib.String.sub t 0 2 = "v:" then Sched.RVal (sched_val (Stdlib.String.sub t 2 (Stdlib.String.length t - 2)))
+  else if Stdlib.String.length t > 2 && Stdlib.String.sub t 0 2 = "i:" then Sched.RInt (coqz_of_z (Z.of_string (Stdlib.String.sub t 2 (Stdlib.String.length t - 2))))
+  else failwith ("bad response token " ^ t)
+
+let kv_arg toks name =
+  let pre = name ^ "=" in
+  let l = Stdlib.String.length pre in
+  match Stdlib.List.find_opt (fun t -> Stdlib.String.length t >= l && Stdlib.String.sub t 0 l = pre) toks with
+  | Some t -> Stdlib.String.sub t l (Stdlib.String.length t - l)
+  | None -> failwith ("missing " ^ name)
+
+(* conc shards=K:SH,.. prog=op|op;op|op sched=0,1,.. keys=K,K *)
+let run_conc toks =
+  let shards = Stdlib.List.map (fun t -> match Stdlib.String.split_on_char ':' t with
+      | [k; sh] -> (n_of_string k, n_of_string sh) | _ -> failwith "bad shard") (split_on ',' (kv_arg toks "shards")) in
+  let progs = Stdlib.List.map (fun th -> Stdlib.List.map sched_op (split_on '|' th))
+      (Stdlib.String.split_on_char ';' (kv_arg toks "prog")) in
+  let sched = Stdlib.List.map (fun t -> Nat_conv.nat_of_int (int_of_string t)) (split_on ',' (kv_arg toks "sched")) in
+  let keys = Stdlib.List.map n_of_string (split_on ',' (kv_arg toks "keys")) in
+  let w0 = Sched.init_world shards progs in
+  let w = Sched.finish (Nat_conv.nat_of_int 2000) (Sched.run w0 sched) in
+  let b = Stdlib.Buffer.create 256 in
+  Stdlib.List.iteri (fun i th ->
+      if i > 0 then Stdlib.Buffer.add_char b ';';
+      Stdlib.Buffer.add_string b (Stdlib.Printf.sprintf "t%d=" i);
+      Stdlib.Buffer.add_string b (Stdlib.String.concat "," (Stdlib.List.rev_map sched_resp_str th.Sched.t_out));
+      if th.Sched.t_ops <> [] then Stdlib.Buffer.add_string b "!unfinished") w.Sched.w_th;
+  Stdlib.Buffer.add_string b " final=";
+  Stdlib.Buffer.add_string b (Stdlib.String.concat "," (Stdlib.List.map (fun k ->
+      string_of_n k ^ ":" ^ (match Sched.abs w.Sched.w_sh k with Some (v, _) -> sched_val_str v | None -> "-")) keys));
+  Stdlib.Buffer.contents b
+
+(* hist id,op,inv,res,resp ...   -> lin=1 | lin=0 *)
+let run_hist toks =
+  let h = Stdlib.List.map (fun t -> match Stdlib.String.split_on_char ',' t with
+      | [id; op; inv; res; resp] ->
+        { Lin.h_id = n_of_string id; Lin.h_op = sched_op op; Lin.h_inv = n_of_string inv;
+          Lin.h_res = n_of_string res; Lin.h_resp = sched_resp resp }
+      | _ -> failwith ("bad history item " ^ t)) toks in
+  if Lin.lin_check h then "lin=1" else "lin=0"
+
 let run_note _ = "note"
 
 let handlers : (string * (string list -> string)) list ref =
-  ref [ ("fs", run_fs); ("open", run_open); ("note", run_note); ("codec", run_codec); ("readdev", run_readdev); ("lww", run_lww); ("monitor", run_monitor); ("cache", run_cache); ("migrate", run_migrate) ]
+  ref [ ("fs", run_fs); ("open", run_open); ("note", run_note); ("codec", run_codec); ("readdev", run_readdev); ("lww", run_lww); ("monitor", run_monitor); ("cache", run_cache); ("migrate", run_migrate); ("conc", run_conc); ("hist", run_hist) ]
 
 
 let () =
